@@ -349,12 +349,17 @@ Section Engine.
                   if passes_policy (cf_policy cfg) (op_packet o) then pure (s <| s_uq := id :: s_uq s |>)
                   else fail_op s id EOfflineQueuePolicyFailed
               | Publish pb =>
-                  if pub_dup pb then pure (s <| s_rq := id :: s_rq s |>)
+                  if pub_dup pb then
+                    (match lookup (pub_pid pb) (s_ppub s) with
+                     | Some _ => pure s          (* still pending: the sweep below re-queues it *)
+                     | None => pure (s <| s_rq := id :: s_rq s |>) end)
                   else if (pub_qos pb =? 2) && (match op_pubrel o with Some _ => true | None => false end)
                        then pure (s <| s_hq := id :: s_hq s |>)
                   else if passes_policy (cf_policy cfg) (op_packet o) then pure (s <| s_uq := id :: s_uq s |>)
                   else fail_op s id EOfflineQueuePolicyFailed
-              | _ => fail_op s id EConnectionClosed
+              | _ =>
+                  let rf := fail_op s id EConnectionClosed in
+                  mkRes (r_s rf) (r_done rf) (if is_panic (r_out rf) then r_out rf else Ok tt)   (* `let _ =` *)
               end
           end in
         try_ r (fun s' => pure (s' <| s_cur := None |>))
@@ -363,7 +368,7 @@ Section Engine.
   Definition set_ss (v : N) (o : op) : op := o <| op_ss := v |>.
   Definition slow_start_init (s : state) : outcome state :=     (* 919-945 *)
     if negb (cf_drain_one cfg) then Ok s else
-    let ops0 := map (fun '(id, o) => (id, set_ss 0 o)) (s_ops s) in
+    let ops0 := s_ops s in          (* marks of earlier disconnections persist *)
     let pend := map snd (s_pnon s) ++ map snd (s_ppub s) in
     if forallb (fun id => match lookup id ops0 with Some _ => true | None => false end) pend
     then Ok (s <| s_ops := fold_left (fun ops id => update id (set_ss 1) ops) pend ops0 |>)
@@ -405,7 +410,7 @@ Section Engine.
     | _ => o
     end.
 
-  Definition net_closed (s : state) : res :=
+  Definition net_closed_raw (s : state) : res :=
     if pstate_eqb (s_st s) Disconnected then mkRes s [] (Err EInternalStateError) else
     let s0 := s <| s_st := Disconnected |> <| s_connack_to := None |> <| s_next_ping := None |>
                 <| s_ping_to := None |> <| s_tmo := [] |> in
@@ -439,6 +444,15 @@ Section Engine.
               andthen (fail_all s11 rejected_u EOfflineQueuePolicyFailed) (fun s12 =>
                 pure (s12 <| s_uq := s_uq s12 ++ kept_u |>)))))
       end end).
+
+  (* a failed user DISCONNECT signals UserInitiatedDisconnect: not a failure of the close *)
+  Definition net_closed (s : state) : res :=
+    let r := net_closed_raw s in
+    if pstate_eqb (s_st s) Disconnected then r else
+    match r_out r with
+    | Err EUserInitiatedDisconnect => mkRes (r_s r) (r_done r) (Ok tt)
+    | _ => r
+    end.
 
   (* ---- write completion (1087-1109) ---- *)
   Definition net_write_completion (s : state) : res :=
@@ -570,7 +584,7 @@ Section Engine.
               end in
             let s2 := s1 <| s_ops := update id (fun o => o <| op_ext := Some now |>) (s_ops s1) |> in
             do s3 <- (match (if op_user o then op_timeout o else None) with
-                      | Some d => do t <- add_time 1307 now d ; Ok (s2 <| s_tmo := s_tmo s2 ++ [(id, t)] |>)
+                      | Some d => if IMAX <? now + d then Ok s2 else Ok (s2 <| s_tmo := s_tmo s2 ++ [(id, now + d)] |>)
                       | None => Ok s2 end) ;
             Ok (s3 <| s_cur := None |>)
         end
@@ -619,6 +633,10 @@ Section Engine.
                     | Ok (s4, r) =>
                         match v_out (s_settings s4) (cf_connect cfg) r packet with
                         | Err k =>
+                            let s4 := match r_alias r with
+                                      | Some _ => s4 <| s_ores := ores_reset (s_ores s4)
+                                                    (match s_settings s4 with Some st => st_topic_alias_maximum_to_server st | None => 0 end) |>
+                                      | None => s4 end in
                             let rf := fail_op (s4 <| s_cur := None |>) id k in
                             match r_out rf with
                             | Ok _ => SeatContinue (r_s rf) (dn ++ r_done rf)
@@ -650,7 +668,7 @@ Section Engine.
           match s_cur s5 with
           | None => mkSres s5 acc dn (Panic 1433)
           | Some id =>
-              if negb (op_exists s5 id) then mkSres s5 acc dn (Panic 1433) else
+              if negb (op_exists s5 id) then mkSres s5 acc dn (Err EInternalStateError) else
               match s_enc s5 with
               | None => mkSres s5 acc dn (Panic 1436)
               | Some e =>
@@ -694,7 +712,7 @@ Section Engine.
               | None => Panic 1488
               | Some st =>
                   let k := st_server_keep_alive st in
-                  let final := N.min (cf_ping_timeout cfg) ((k / 2) * 1000) in
+                  let final := N.min (cf_ping_timeout cfg) (k * 500) in
                   do pt <- add_time 1493 now final ;
                   let s3 := s2 <| s_ping_to := Some pt |> in
                   if 0 <? k then Ok (s3 <| s_next_ping := Some (now + k * 1000) |>) else Ok s3
@@ -755,6 +773,7 @@ Section Engine.
 
   Definition nst_queue (s : state) (mode_all : bool) (now : N) : option N :=
     if s_pwc s then None else
+    match s_cur s with Some _ => Some now | None =>
     match s_hq s with
     | _ :: _ => Some now
     | [] =>
@@ -779,7 +798,7 @@ Section Engine.
         | [], [] => None
         | _, _ => Some now
         end
-    end.
+    end end.
 
   Definition next_service_time (s : state) (now : N) : outcome (option N) :=
     match s_st s with
@@ -1116,28 +1135,31 @@ Section Engine.
     o_bytes : bytes;
     o_done : dones;
     o_events : list packet;
-    o_nst : option (option N) }.
+    o_nst : option (option N);
+    o_id : option N }.             (* EvUser: the operation id assigned to the submission *)
 
   Definition out_of_res (r : res) (halt : bool) : state * output :=
-    ((if halt then halt_on_error (r_s r) (r_out r) else r_s r), mkOutput (r_out r) [] (r_done r) [] None).
+    ((if halt then halt_on_error (r_s r) (r_out r) else r_s r), mkOutput (r_out r) [] (r_done r) [] None None).
 
   Definition step (s : state) (e : event) : state * output :=
     match e with
-    | EvUser _ p t => out_of_res (user_event s p t) false
+    | EvUser _ p t =>
+        let (s', o) := out_of_res (user_event s p t) false in
+        (s', mkOutput (o_res o) [] (o_done o) [] None (Some (s_next_id s)))
     | EvOpen _ deadline => out_of_res (net_opened s deadline) true
     | EvClose _ => out_of_res (net_closed s) true
     | EvWriteComplete _ => out_of_res (net_write_completion s) true
     | EvData now data =>
         let h := net_data s now data in
-        (halt_on_error (h_s h) (h_out h), mkOutput (h_out h) [] (h_done h) (h_ev h) None)
+        (halt_on_error (h_s h) (h_out h), mkOutput (h_out h) [] (h_done h) (h_ev h) None None)
     | EvService now cap fill =>
         let r := service s now cap fill in
-        (sr_s r, mkOutput (sr_out r) (sr_bytes r) (sr_done r) [] None)
+        (sr_s r, mkOutput (sr_out r) (sr_bytes r) (sr_done r) [] None None)
     | EvNextService now =>
         match next_service_time s now with
-        | Ok t => (s, mkOutput (Ok tt) [] [] [] (Some t))
-        | Err k => (s, mkOutput (Err k) [] [] [] None)
-        | Panic site => (s, mkOutput (Panic site) [] [] [] None)
+        | Ok t => (s, mkOutput (Ok tt) [] [] [] (Some t) None)
+        | Err k => (s, mkOutput (Err k) [] [] [] None None)
+        | Panic site => (s, mkOutput (Panic site) [] [] [] None None)
         end
     | EvReset _ => out_of_res (reset s) false
     end.
